@@ -77,7 +77,10 @@ wasteful for just few samples."""
 
 
 def all_good_parities(k, n, planted_assignments):
-    for X in itertools.combinations(range(1, n+1), k):
+    # (itertools.combinations makes a copy of the variables first,
+    # even if no variable is needed)
+    domains = [()] if k == 0 else itertools.combinations(range(1, n+1), k)
+    for X in domains:
         if parity_satisfied(X,0,planted_assignments):
             yield X,0
         if parity_satisfied(X,1,planted_assignments):
